@@ -348,3 +348,30 @@ Example C10_cross_party_example : forall cs,
     /\ nth 29 (snd (ed_run (x_root cs) red_new (x_cross [4] 5))) true = false
     /\ nth 29 (snd (ed_run (x_root cs) red_new (x_cross [4; 6] 2))) true = false.
 Proof. exact cross_example. Qed.
+
+(* editing a delegated role - change_delegated_targets R, operations on it, sign_targets_editor -: the tree then
+   holds R, under the header its delegating role has for it, with exactly the abstract map after those
+   operations (C10_role_update_frame: and every other role as it was; C10_program_roundtrip with
+   C10_loaded_tree_exact: this is the tree a client loads after the final sign) *)
+Theorem C10_role_edit_seen : forall r st top R st1 seg keys st3 old,
+  R <> name_targets_role ->
+  rd_top st = Some top -> find_role_in R top = Some old ->
+  ed_step r st (OpChange R) = Some st1 ->
+  forallb stays seg = true ->
+  ed_step r (fst (ed_run r st1 seg)) (OpSignEditor keys) = Some st3 ->
+  exists top3 c, rd_top st3 = Some top3 /\ rd_te st3 = None /\ find_role_in R top3 = Some c /\ en_hdr c = en_hdr old
+                 /\ forall n, lookup_target n (en_entries c) = spec_targets seg (fun x => lookup_target x (en_entries old)) n.
+Proof. exact role_edit_seen. Qed.
+Print Assumptions C10_role_edit_seen.
+
+(* versions and expirations of the three roles as the client sees them are those set last (the targets ones on the
+   top-level role since it came under edit, the snapshot and timestamp ones since the editor was created) *)
+Theorem C10_program_settings_seen : forall (len_of dig_of : content -> N) r pre seg keys te0 tg sn ts srv,
+  rd_te (fst (ed_run r red_new pre)) = Some te0 ->
+  forallb stays seg = true ->
+  ed_program_sign len_of dig_of r (pre ++ seg) keys = Some (tg, sn, ts, srv) ->
+  fold_left (fun g o => settings_step o g) seg (settings_of (fst (ed_run r red_new pre)) te0)
+  = {| g_tv := Some (tg_version tg); g_texp := Some (tg_expires tg); g_sv := Some (sn_version sn); g_sexp := Some (sn_expires sn);
+       g_tsv := Some (ts_version ts); g_tsexp := Some (ts_expires ts) |}.
+Proof. exact program_settings_seen. Qed.
+Print Assumptions C10_program_settings_seen.
